@@ -141,6 +141,8 @@ def gen_scenario(r, cls: str) -> Dict[str, Any]:
             row[0] -= shift
         bars[f"{b}/{qs}"] = bl
     sc["bars"] = bars
+    # bars may summarise more than the spacing between them (e.g. 2 h or 4 h bars published every hour)
+    sc["bar_hours"] = {pname: r.choice([1, 1, 1, 2, 4]) for pname in bars}
 
     # ---- initial balances ----------------------------------------------------------------
     init = {}
